@@ -28,6 +28,14 @@ class List(Expression):
 
         return f'{arg}{op}'
 
+    def python_names(self):
+        from .inline_python import python_names
+        result = set()
+        for bound in [self.min_len, self.max_len]:
+            if isinstance(bound, str):
+                result |= python_names(bound)
+        return result
+
     def always_succeeds(self):
         return not self.min_len or self.min_len == '0'
 
